@@ -55,6 +55,9 @@ def _r(src, args, ret):
 
 
 REGRESSION = [
+    # a local list / tuple constant reassigned from its own elements
+    _r("def f(a: Qint[2], b: bool) -> Qint[2]:\n    l = [1, 2]\n    l = [l[1], l[0] + a]\n    return l[0] if b else l[1]\n", [["a", "Qint2"], ["b", "bool"]], "Qint2"),
+    _r("def f(a: bool, b: bool) -> bool:\n    t = (True, False)\n    t = (t[1] ^ a, t[0] and b)\n    return t[0] or t[1]\n", [["a", "bool"], ["b", "bool"]], "bool"),
     # an index variable that once held a literal (assignment / finished loop) and was reassigned since
     _r("def f(l: Qlist[Qint[2], 4], a: Qint[2]) -> Qint[2]:\n    i = 0\n    i = a\n    return l[i]\n", [["l", ["Qint2"] * 4], ["a", "Qint2"]], "Qint2"),
     _r("def f(a: Qint[2], c: bool) -> Qint[4]:\n    i = 1\n    if c:\n        i = a\n    return [3, 5, 7, 9][i]\n", [["a", "Qint2"], ["c", "bool"]], "Qint4"),
